@@ -15,7 +15,7 @@ NAME = "srf"
 PROPERTY = "C11"
 TIERS = {"quick": (5000, 90.0), "thorough": (150000, 1800.0)}
 CHANGE_KINDS = {"set", "assign_model", "gen_set", "set_post", "set_generator"}
-OBSERVE_KINDS = {"gen"}
+OBSERVE_KINDS = {"gen", "gen_direct"}
 RULE = ("one run = seeded history (3-14 ops) over one long-lived SRF and its twin: gen in a "
         "layout (unstructured subset/permutation, split in two calls, structured sub-grid, "
         "meshio mesh points/centroids, reuse stored pos), in-place model changes and "
@@ -122,7 +122,8 @@ def gen_config(rng):
         cfg["n_ops"] = min(cfg["n_ops"], 8)
     if vector:
         cfg["normalizer"] = None
-    w = {"gen": 6, "set": 4, "assign_model": 1, "gen_set": 3, "set_post": 1, "fault": 3}
+    w = {"gen": 6, "set": 4, "assign_model": 1, "gen_set": 3, "set_post": 1, "fault": 3,
+         "gen_direct": 1}
     for k in sorted(w):  # swarm: randomly mute / boost op kinds
         r = rng.random()
         if r < 0.15 and k != "gen":
@@ -205,6 +206,9 @@ class Machine:
             kind = "gen"
         if kind == "gen" or (kind == "fault" and self.last is None and rng.random() < 0.5):
             return self._gen_gen(rng)
+        if kind == "gen_direct":
+            return {"op": "gen_direct", "idx": rng.sample(range(self.npool), min(3, self.npool)),
+                    "add_nugget": False}
         if kind == "set":
             return self._gen_set(rng)
         if kind == "assign_model":
@@ -360,12 +364,22 @@ class Machine:
             v = [rng.choice([8.0, 10.0, 12.5, 20.0]) for _ in range(self.dim)]
             if rng.random() < 0.3:
                 v = v[0]
-            return {"op": "gen_set", "param": p, "value": v}
+            return {"op": "gen_set", "param": p, "value": v, "as_array": rng.random() < 0.4}
         return {"op": "gen_set", "param": "mean_u", "value": rng.choice([1.0, 0.5, 2.0])}
 
     def _gen_fault(self, rng):
         f = rng.choice(["global_rng", "global_rng", "num_threads", "use_core", "errstate",
-                        "rejected_set", "callback_raise"])
+                        "rejected_set", "callback_raise", "rejected_seed"])
+        if f == "rejected_seed" and self.spec["gen"]["kind"] == "Fourier" and rng.random() < 0.5:
+            bad = [rng.choice([4, 6, 8, 10]) for _ in range(self.dim)]
+            bad[rng.randrange(self.dim)] = rng.choice([3, 5, 7])
+            return {"fault": "rejected_mode_no", "bad": bad,
+                    "via": rng.choice(["setter", "update"])}
+        if f == "rejected_seed":
+            return {"fault": f, "bad": rng.choice([-1, -20170519]),
+                    "idx": rng.sample(range(self.npool), min(2, self.npool)),
+                    "repair": self.spec["seed"] if rng.random() < 0.7 else rng.choice(SEEDS),
+                    "obj": rng.choice(["same", "distinct", "np"])}
         if f == "global_rng":
             return {"fault": f, "k": rng.randint(0, 2 ** 31), "n": rng.randint(0, 50)}
         if f == "num_threads":
@@ -404,6 +418,8 @@ class Machine:
             return self._apply_gen_set(op)
         if k == "set_post":
             return self._apply_set_post(op)
+        if k == "gen_direct":
+            return self._apply_gen_direct(op)
         raise HarnessError("unknown op %r" % (op,))
 
     # -- helpers
@@ -525,7 +541,13 @@ class Machine:
                         raise Inapplicable("list mode_no")
                     g.mode_no = v
             elif p == "period":
-                g.period = v
+                if op.get("as_array"):
+                    arr = np.array(v if isinstance(v, list) else [v] * self.dim, dtype=np.double)
+                    g.period = arr
+                    arr *= 3.0  # the caller reuses its array: the generator must own its copy
+                    self.ctx.probe("period_array_mutated_after_assignment")
+                else:
+                    g.period = v
             elif p == "mean_u":
                 g.mean_u = v
         if p in ("seed_attr", "reset_seed", "update_seed"):
@@ -595,6 +617,24 @@ class Machine:
             for s in self.sides():
                 self._set_param(s.srf.model, p, op["repair"])
             self._sync_spec_model()
+        elif f == "rejected_seed":
+            self._apply_rejected_seed(op)
+        elif f == "rejected_mode_no":
+            if self.spec["gen"]["kind"] != "Fourier" or len(op["bad"]) != self.dim:
+                raise Inapplicable("Fourier only")
+            for s in self.sides():
+                try:
+                    if op.get("via") == "update":
+                        s.srf.generator.update(mode_no=list(op["bad"]))
+                    else:
+                        s.srf.generator.mode_no = list(op["bad"])
+                except ValueError:
+                    pass
+                else:
+                    raise Violation("C11.odd_mode_no_accepted", mode_no=op["bad"])
+            # a rejected setting is not a change: the abstract spec stays as it is and the
+            # next observations are compared with a generator built from it
+            self.ctx.fired("rejected_mode_no")
         elif f == "callback_raise":
             fn = self.sut.fns.get(op["what"])
             if not isinstance(fn, cm.LinFn):
@@ -602,6 +642,55 @@ class Machine:
             fn.arm(op["n"])
         else:
             raise HarnessError("unknown fault %r" % (op,))
+
+    def _apply_gen_direct(self, op):
+        """Direct call of the generator with ONE caller array that is overwritten in place
+        between calls (particle tracking style); compared with a fresh generator."""
+        if self.spec["model"]["nugget"] > 0:
+            raise Inapplicable("nugget noise")
+        idx = [i for i in op["idx"] if 0 <= i < self.npool]
+        if not idx:
+            raise Inapplicable("no points")
+        idx = (idx * 3)[:3]
+        # make sure a pending in-place model change has reached the generator
+        pts = self.pool[:, idx]
+        out = []
+        for s in self.sides():
+            s.srf.generator.update(s.srf.model)
+            iso = np.ascontiguousarray(s.srf.model.isometrize(pts))
+            if getattr(s, "gbuf", None) is None or s.gbuf.shape != iso.shape:
+                s.gbuf = iso.copy()
+            else:
+                s.gbuf[...] = iso
+                self.ctx.probe("generator_buffer_reused")
+            out.append(np.array(s.srf.generator(s.gbuf, add_nugget=False), dtype=np.double))
+        fresh = build_srf(self.spec)
+        exp = np.array(fresh.generator(np.ascontiguousarray(fresh.model.isometrize(pts)),
+                                       add_nugget=False), dtype=np.double)
+        self.ctx.observations += 1
+        self.ctx.note("gen_direct", out[0])
+        if not close(out[0], exp, rtol=self.tol):
+            raise Violation("C11.generator_direct", maxdiff=maxdiff(out[0], exp),
+                            gen=self.spec["gen"]["kind"])
+
+    def _apply_rejected_seed(self, op):
+        idx = [i for i in op["idx"] if 0 <= i < self.npool]
+        if not idx:
+            raise Inapplicable("no points")
+        pts = self.pool[:, idx]
+        for s in self.sides():
+            try:
+                s.srf(pts.copy(), seed=op["bad"], store=False)
+            except (ValueError, TypeError, OverflowError):
+                pass
+            else:
+                raise Violation("C11.bad_seed_accepted", seed=op["bad"])
+        self.ctx.fired("rejected_seed")
+        self.last = ("u", idx)
+        # the seed is poisoned: the user states a valid seed with the next call
+        self._apply_gen({"op": "gen", "layout": "unstructured", "idx": idx, "via": "call",
+                         "seed": {"value": op["repair"], "obj": op["obj"]}, "store": True,
+                         "post": True})
 
     # -- reference
     def _ref_pool(self, post):
